@@ -108,19 +108,22 @@ func (c *Ctx) AdoptPassesKnown(alt *Ctx, known *KnownFile) int {
 			}
 		}
 		for _, k := range known.Findings {
-			if k.Property == c.Prop && mine[k.Key] {
-				isKnown[k.Key] = true
+			if k.Property == c.Prop {
+				isKnown[k.Key] = true // whether or not this run got as far as that obligation
 			}
 		}
+		_ = mine
 	}
 	byKey := map[string]*Obligation{}
 	open := map[string]int{}
 	seen := map[string]int{}
+	openTotal := 0
 	for _, o := range alt.Obs {
 		byKey[o.FullKey()] = o
 		seen[o.Rule]++
 		if o.st != Pass && !(o.st == Fail && isKnown[o.FullKey()]) {
 			open[o.Rule]++
+			openTotal++
 		}
 	}
 	n := 0
@@ -141,7 +144,10 @@ func (c *Ctx) AdoptPassesKnown(alt *Ctx, known *KnownFile) int {
 		case !ok && o.Rule == "instances" && open["instances"] == 0 && open[o.Key] == 0 && seen[o.Key] > 0:
 			// the instance count of rule o.Key is met on the expanded program (Expect records nothing then)
 			o.Detail = "on the equivalent program obtained by expanding the new helper functions in place rule " + o.Key + " matches the expected number of sites and leaves nothing open [on the unexpanded program: " + o.Detail + "]"
-		case !ok && open[o.Rule] == 0 && seen[o.Rule] > 0 && o.Rule != "anchor" && o.Rule != "panic" && o.Rule != "instances":
+		case !ok && open[o.Rule] == 0 && openTotal == 0 && seen[o.Rule] > 0 && o.Rule != "anchor" && o.Rule != "panic" && o.Rule != "instances":
+			// (nothing at all is open on the other program: a recognition step that
+			// failed there, under whatever rule, could be the reason why the key does
+			// not arise)
 			o.Detail = "does not arise on the equivalent program obtained by expanding the new helper functions in place, where rule " + o.Rule + " leaves nothing open [on the unexpanded program: " + o.Detail + "]"
 		default:
 			continue
@@ -161,11 +167,14 @@ func (c *Ctx) AdoptPassesKnown(alt *Ctx, known *KnownFile) int {
 	// run discharges) has produced none of its other obligations: what the other
 	// run found for that rule under keys unknown here comes with the discharge —
 	// its violations and its undecided obligations as well as its passes.
+	ran := map[string]bool{}
+	for _, o := range c.Obs {
+		ran[o.Rule] = true
+	}
 	for _, o2 := range alt.Obs {
-		if !early[o2.Rule] || have[o2.FullKey()] || o2.st == Pass {
-			continue
-		}
-		if o2.st == Fail && isKnown[o2.FullKey()] {
+		// rules that stopped early here, and - when something was adopted at all -
+		// rules that never got to run here because the rule set returned before them
+		if !(early[o2.Rule] || n > 0 && !ran[o2.Rule]) || have[o2.FullKey()] || o2.st == Pass {
 			continue
 		}
 		cp := *o2
